@@ -119,27 +119,6 @@ def unc_mode(unc):
     return "zero"
 
 
-def expected_after(p, old_style):
-    """
-    What an upgraded property must offer (DESIGN O2): returns (uncertainty attribute or None,
-    {companion name: values}).
-    """
-    if not old_style:
-        return None, {}
-    ex = prop_extras(p)
-    comp = {}
-    attr = None
-    m = unc_mode(ex["uncertainty"])
-    if m == "distinct":
-        comp[p["name"] + ".uncertainty"] = [walk.cfloat(x) for x in ex["uncertainty"]]
-    elif m == "common":
-        attr = ex["uncertainty"][0]
-    for e in EXTRAS:
-        if any(ex[e]):
-            comp[p["name"] + "." + e] = list(ex[e])
-    return attr, comp
-
-
 def cvals(p):
     if p["vt"] == "float":
         return [walk.cfloat(v) for v in p["vals"]]
@@ -712,45 +691,58 @@ class FileCase:
 
     def content(self, W, sub, case):
         """(2): model + walk-to-walk + extras on an upgraded file's walk"""
-        companions = {}
-        attr_unc = {}
+        old_style = bool(self.props)
+        cand = {}                 # (section path, companion name) -> (per-value list, prop, extra)
         for spath, s in iter_sections(self.recipe):
             for p in s.get("props", []):
-                a, comp = expected_after(p, bool(self.props))
-                attr_unc[("/".join(spath), p["name"])] = a
-                for cname, cv in comp.items():
-                    companions[("/".join(spath), cname)] = (cv, p, cname.rsplit(".", 1)[1])
+                if not old_style:
+                    continue
+                ex = prop_extras(p)
+                for extra in ["uncertainty"] + EXTRAS:
+                    vals = [walk.cfloat(x) for x in ex[extra]] if extra == "uncertainty" else list(ex[extra])
+                    cand[("/".join(spath), p["name"] + "." + extra)] = (vals, p, extra)
         # model: recipe values / units / definitions / data / ticks
-        d = walk.diff(self.model, project(W, companions))
+        d = walk.diff(self.model, project(W, cand))
         if d:
             self.viol("%s/%s" % (sub, model_diff_key(self.recipe, d)),
                       {"path": d[0], "recipe": walk.brief(d[1]), "upgraded": walk.brief(d[2])}, case)
-        # walk-to-walk: everything else the API shows must be as in the never-downgraded file
+        # per-value extras must remain retrievable: a companion property <name>.<extra> holding the
+        # per-value list, or (a single common uncertainty) the uncertainty attribute; extras that were
+        # never set (all zero / all empty) need not be represented
         A = norm(self.W0, self.keep_id)
         B = norm(W, self.keep_id)
-        secsB = section_nodes(B)
-        for (sp, cname), (cv, p, extra) in sorted(companions.items()):
-            props = secsB.get(sp, {}).get("props", {})
-            node = props.pop(cname, None) if isinstance(props, dict) else None
-            mode = unc_mode(prop_extras(p)["uncertainty"]) if extra == "uncertainty" else \
-                ("all" if all(prop_extras(p)[extra]) else "some")
-            if node is None:
-                self.viol("extras/%s/%s/companion-missing" % (extra, mode), {"section": sp, "name": cname}, case)
-            elif node.get("values") != cv:
-                self.viol("extras/%s/%s/companion-values" % (extra, mode),
-                          {"section": sp, "name": cname, "want": cv, "got": node.get("values")}, case)
         secsA = section_nodes(A)
-        for (sp, pname), a in sorted(attr_unc.items()):
-            nodeB = secsB.get(sp, {}).get("props", {}).get(pname) if isinstance(secsB.get(sp, {}).get("props"), dict) else None
-            nodeA = secsA.get(sp, {}).get("props", {}).get(pname)
-            if nodeB is None or nodeA is None:
-                continue
-            want = None if a is None else walk.cfloat(a)
-            got = nodeB.get("uncertainty")
-            if self.props and got != want and not (want is None and got == walk.cfloat(0.0)):
-                self.viol("extras/uncertainty/%s/attribute" % ("common" if a is not None else "zero-or-distinct"),
-                          {"section": sp, "prop": pname, "want": want, "got": got}, case)
-            nodeA["uncertainty"] = nodeB["uncertainty"] = None
+        secsB = section_nodes(B)
+        for (sp, cname), (vals, p, extra) in sorted(cand.items()):
+            props = secsB.get(sp, {}).get("props")
+            if not isinstance(props, dict) or p["name"] not in props:
+                continue                                  # reported by the model comparison
+            ex = prop_extras(p)
+            if extra == "uncertainty":
+                mode = unc_mode(ex[extra])
+                is_set = mode != "zero"
+            else:
+                is_set = any(ex[extra])
+                mode = "unset" if not is_set else ("all" if all(ex[extra]) else "some")
+            node = props.pop(cname, None)
+            attr = props[p["name"]].get("uncertainty") if extra == "uncertainty" else None
+            if node is not None:
+                if node.get("values") != vals:
+                    self.viol("extras/%s/%s/companion-values" % (extra, mode),
+                              {"section": sp, "name": cname, "want": vals, "got": node.get("values")}, case)
+            elif is_set and not (mode == "common" and attr == vals[0]):
+                self.viol("extras/%s/%s/not-retrievable" % (extra, mode),
+                          {"section": sp, "prop": p["name"], "generated": vals[:6], "companion": None,
+                           "attribute": attr}, case)
+            if extra == "uncertainty":
+                if attr is not None and not (set(map(repr, vals)) == {repr(attr)} or
+                                             (not vals and attr == walk.cfloat(0.0))):
+                    self.viol("extras/uncertainty/%s/attribute-wrong" % mode,
+                              {"section": sp, "prop": p["name"], "generated": vals[:6], "attribute": attr}, case)
+                props[p["name"]]["uncertainty"] = None
+                if sp in secsA and p["name"] in secsA[sp].get("props", {}):
+                    secsA[sp]["props"][p["name"]]["uncertainty"] = None
+        # walk-to-walk: everything else the API shows must be as in the never-downgraded file
         d = walk.diff(A, B)
         if d:
             self.viol("%s/walk%s" % (sub, keyify(d[0])),
@@ -778,6 +770,8 @@ class FileCase:
                           {"k": k, "n": n, "version": state["version"], "left": _brief_state(state)}, case)
             elif try_open(self.tmp, nixio.FileMode.ReadWrite) is None:
                 self.viol("interrupt/read-write-accepted/" + kcls, {"k": k, "n": n}, case)
+            if not upg.collect_tasks(self.tmp)[0]:
+                self.viol("interrupt/not-recognised-as-old/" + kcls, {"k": k, "n": n}, case)
         else:
             if ret is not True:
                 self.viol("interrupt/no-interruption-yet-failed", {"k": k, "n": n, "got": ret, "output": out}, case)
@@ -802,11 +796,12 @@ class FileCase:
                       {"k": k, "n": n, "left": _brief_state(state)}, case)
         if upg.collect_tasks(self.tmp)[0]:
             self.viol("resume/%s/tasks-left" % resume, {"k": k, "n": n}, case)
-        err = try_open(self.tmp, nixio.FileMode.ReadWrite)
-        if err:
-            self.viol("resume/%s/read-write-refused" % resume, {"k": k, "n": n, "error": err}, case)
+        try:
+            Wk = open_walk(self.tmp, nixio.FileMode.ReadWrite)
+        except Exception as e:                          # noqa: BLE001 - "refused" = any exception
+            self.viol("resume/%s/read-write-refused" % resume,
+                      {"k": k, "n": n, "error": type(e).__name__ + ": " + str(e)[:120]}, case)
             return False
-        Wk = open_walk(self.tmp, nixio.FileMode.ReadWrite)
         d = walk.diff(norm(self.Wup, self.keep_id), norm(Wk, self.keep_id))
         if d:
             self.viol("resume/%s/differs%s" % (resume, keyify(d[0])),
@@ -864,8 +859,11 @@ def run_file(base, ctx, ks="all", resumes=("fresh", "stale"), exc=None):
         n = fc.n
         ctx.add("write_opens_total", n)
         klist = list(range(1, n + 2)) if ks == "all" else [k for k in ks if 1 <= k <= n + 1]
+        some = {1, 2, (n + 1) // 2, n - 1, n, n + 1}
         for k in klist:
             for resume in resumes:
+                if ks == "all" and resume == "stale" and n > 6 and k not in some:
+                    continue                # every k is resumed afresh; a stale list at 6 spread points
                 e = exc or ("kill" if (k + len(fc.props)) % 3 == 0 else "error")
                 fc.interrupted(k, resume, e)
                 kc = "k:first" if k == 1 else ("k:none(n+1)" if k == n + 1 else ("k:last" if k == n else "k:middle"))
@@ -927,12 +925,12 @@ def prop_st(draw, name):
 
 @st.composite
 def section_st(draw, name, depth):
-    pnames = draw(st.lists(NAMES, min_size=0, max_size=6 if depth == 1 else 3, unique=True))
+    pnames = draw(st.lists(NAMES, min_size=0, max_size=4 if depth == 1 else 2, unique=True))
     s = {"name": name, "type": draw(st.sampled_from(["t", "recording", "ü"])),
          "def": draw(st.one_of(st.none(), TEXT)),
          "props": [draw(prop_st(n)) for n in pnames], "subs": []}
     if depth < 3:
-        snames = draw(st.lists(NAMES, min_size=0, max_size=2, unique=True))
+        snames = draw(st.lists(NAMES, min_size=0, max_size=draw(st.sampled_from([0, 1, 1, 2])), unique=True))
         s["subs"] = [draw(section_st(n, depth + 1)) for n in snames]
     return s
 
@@ -975,7 +973,7 @@ def array_st(draw, name):
 
 @st.composite
 def block_st(draw, name):
-    anames = draw(st.lists(NAMES, min_size=0, max_size=4, unique=True))
+    anames = draw(st.lists(NAMES, min_size=1, max_size=3, unique=True))
     return {"name": name, "type": draw(st.sampled_from(["t", "session"])),
             "md": draw(st.one_of(st.none(), st.integers(0, 5))),
             "arrays": [draw(array_st(n)) for n in anames],
@@ -984,8 +982,9 @@ def block_st(draw, name):
 
 @st.composite
 def file_case_st(draw):
-    snames = draw(st.lists(NAMES, min_size=1, max_size=3, unique=True))
-    bnames = draw(st.lists(NAMES, min_size=0, max_size=2, unique=True))
+    snames = draw(st.lists(NAMES, min_size=0, max_size=draw(st.sampled_from([0, 1, 2, 2, 2, 3])), unique=True))
+    nb = draw(st.sampled_from([0, 1, 1, 1, 2]))
+    bnames = draw(st.lists(NAMES, min_size=nb, max_size=nb, unique=True))
     recipe = {"secs": [draw(section_st(n, 1)) for n in snames],
               "blocks": [draw(block_st(n)) for n in bnames]}
     down = {"ver": draw(st.sampled_from(VERSIONS + [[1, 1, 0], [1, 0, 0]])),
@@ -1071,7 +1070,7 @@ def _valid(case):
             if not sec_ok(s.get("subs", []), depth + 1):
                 return False
         return True
-    if not rec.get("secs") or not sec_ok(rec["secs"], 1):
+    if not sec_ok(rec.get("secs", []), 1):
         return False
     bn = [b.get("name") for b in rec.get("blocks", [])]
     if len(set(bn)) != len(bn):
@@ -1122,7 +1121,7 @@ def _valid(case):
 # ====================================================================== runner contract
 
 def shards(tier, seed):
-    nshards, per = (16, 5) if tier == "quick" else (64, 24)
+    nshards, per = (48, 4) if tier == "quick" else (192, 8)
     return [{"n": per, "seed": seed * 1000 + i} for i in range(nshards)]
 
 
